@@ -79,7 +79,7 @@ func (area) Requires() string {
 }
 func (area) Check() string { return "check_fcase" }
 func (area) Rule() string {
-	return "histories of 40-100 calls (thorough: up to 300) on a tree of <=10 directories below a fresh root, names from {a,A,b,B,c,C,d,.h,.H,.hx} (.h* hidden), case-insensitive normaliser in every second history; calls: VirtualLookup/OpenChild/Mkdir/Mknod/Link/Remove/Rename/ReadDir (pages of 1-4, resumed from the last, an earlier or an arbitrary cookie), LookupChild, LookupAllChildren, ReadDir, Remove, RemoveAll, RemoveAllChildren, CreateChildren, CreateAndEnterPrepopulatedDirectory, FilterChildren, InstallHooks; 3% of the calls are a VirtualReadDir racing with a rename/mknod/unlink in the same directory while a parked VirtualOpenChild holds the lock of a child directory (the listing drops its lock and re-seeks; recorded as the two pages it must be equivalent to); allocator failures injected in 5% of creations; every history ends with a full listing of every directory; non-trivial = at least one successful rename that replaced an entry or crossed directories, one successful removal, and one multi-page listing read to its end; distinct by hash of the full case term"
+	return "histories of 40-100 calls (thorough: up to 300) on a tree of <=10 directories below a fresh root, names from {a,A,b,B,c,C,d,.h,.H,.hx} (.h* hidden), case-insensitive normaliser in every second history; calls: VirtualLookup/OpenChild/Mkdir/Mknod/Link/Remove/Rename/ReadDir (pages of 1-4, resumed from the last, an earlier or an arbitrary cookie), LookupChild, LookupAllChildren, ReadDir, Remove, RemoveAll, RemoveAllChildren, CreateChildren, CreateAndEnterPrepopulatedDirectory, FilterChildren, InstallHooks; 3% of the calls are a VirtualReadDir racing with a rename/mknod/unlink in the same directory while a parked VirtualOpenChild holds the lock of a child directory (the listing drops its lock and re-seeks; recorded as the two pages it must be equivalent to); allocator failures injected in 5% of creations; the kernel-facing calls of a history are delivered through one front end: the virtual.Directory API (quick 70% / thorough 50%), fuse.NewSimpleRawFileSystem (15% / 25%: Lookup, Create, Open, Mkdir, Mknod, Symlink, Link, Unlink, Rmdir, Rename, ReadDir / ReadDirPlus at the offsets received, GetAttr, Forget of all or one lookup in 4% of the calls, everything forgotten at the end) or NFSv4 COMPOUNDs (15% / 25%, two thirds NewNFS41Program, one third NewNFS40Program, over NewNFSHandleAllocator: PUTROOTFH/PUTFH, LOOKUP, OPEN+CLOSE, CREATE, LINK, REMOVE, RENAME, READDIR with cookie and verifier, GETFH, GETATTR of type/change/filehandle/numlinks after every call for every object); calls a front end cannot deliver (node not held, stale handle) and the worker-facing calls use the API directly; every history ends with a full listing of every directory; non-trivial = at least one successful rename that replaced an entry or crossed directories, one successful removal, and one multi-page listing read to its end; distinct by hash of the full case term"
 }
 
 func (area) Generate(r *rng.R, thorough bool, index int) json.RawMessage {
@@ -666,11 +666,16 @@ func (area) Execute(raw json.RawMessage) (term string, info *hcommon.Info, err e
 
 	var ops, obs []string
 	// what the front end did against its own protocol (Front.v: fc_proto)
+	// After a protocol violation, a panic or a hang the front end is in an
+	// unknown state (simpleRawFileSystem, for one, panics with its node lock
+	// read-held): the history ends and nothing more is asked of it.
 	var proto []string
+	stopped, frontBroken := false, false
 	protocol := func(what string) {
 		step := len(ops)
 		proto = append(proto, fmt.Sprintf("(%d, %s)", step, g.Str(what)))
 		info.Outs["front-protocol:"+what]++
+		stopped, frontBroken = true, true
 	}
 	var fe frontEnd
 	switch front {
@@ -693,7 +698,6 @@ func (area) Execute(raw json.RawMessage) (term string, info *hcommon.Info, err e
 	info.Outs["history@"+frontName]++
 	parent := map[int]int{}
 	lastCookies := map[int][]uint64{} // cookies returned by the listing in progress, per directory
-	stopped := false
 	renameOK, removeOK, longListings := 0, 0, 0
 	pagesInSession := map[int]int{}
 
@@ -726,7 +730,7 @@ func (area) Execute(raw json.RawMessage) (term string, info *hcommon.Info, err e
 				// through the front end where it transports the change
 				// attribute (NFSv4 GETATTR), else from the object
 				seen := false
-				if fe != nil {
+				if fe != nil && !frontBroken {
 					changeID, seen, released = fe.dirState(i)
 				}
 				if !seen {
@@ -746,8 +750,12 @@ func (area) Execute(raw json.RawMessage) (term string, info *hcommon.Info, err e
 		links := make([]int64, len(w.leaves))
 		for i, l := range w.leaves {
 			links[i] = int64(l.nlink)
-			if fe != nil {
+			if fe != nil && !frontBroken {
 				links[i] = fe.leafLinks(l)
+			} else if fe != nil {
+				var attributes virtual.Attributes
+				l.self.VirtualGetAttributes(ctx, virtual.AttributesMaskLinkCount, &attributes)
+				links[i] = int64(attributes.GetLinkCount())
 			}
 			ls = append(ls, g.Z(links[i]))
 		}
@@ -799,7 +807,7 @@ func (area) Execute(raw json.RawMessage) (term string, info *hcommon.Info, err e
 	// (a node the kernel does not hold, a handle that went stale with its
 	// directory): the caller uses the direct API.
 	viaFront := func(method string, f func() *result) (*result, bool) {
-		if fe == nil {
+		if fe == nil || frontBroken {
 			return nil, false
 		}
 		var fr *result
@@ -807,6 +815,7 @@ func (area) Execute(raw json.RawMessage) (term string, info *hcommon.Info, err e
 		run(r, func() { fr = f() })
 		if r.status != "SOK" { // panic or hang inside the front end
 			info.Ops[method+"@"+front]++
+			frontBroken = true
 			return r, true
 		}
 		if fr == nil {
@@ -898,7 +907,7 @@ func (area) Execute(raw json.RawMessage) (term string, info *hcommon.Info, err e
 			// FUSE: the kernel lets go of a node (no model operation: the
 			// file system must behave as before; later calls on a node the
 			// kernel no longer holds use the direct API)
-			if fe != nil {
+			if fe != nil && !frontBroken {
 				fe.forget(o.L, o.M)
 			}
 
